@@ -134,3 +134,49 @@ def extract_low_mark_sites(src, tier):
               len(sites), ", ".join("(%s) as usize" % e for _r, e in sites))
     open(dst, "a").write(txt)
     return "source-extracted constants: low-mark argument of LowMarkBufReader::new at %s" % "; ".join("%s: `%s`" % s for s in sites)
+
+
+def extract_sorter(src, tier):
+    """utils::buffer_sort_messages -> fn verif_sort_messages in the harness module: the CURRENT body, verbatim, with the parameter types and
+    the std hash/tree maps replaced by models (see harness/sort.rs)"""
+    p = os.path.join(src, "src/utils/mod.rs")
+    s = open(p).read()
+    m = re.search(r"pub fn buffer_sort_messages<[^>]*(?:->[^>]*>)?[^(]*\(", s)
+    f = s.find("pub fn buffer_sort_messages")
+    if f < 0:
+        raise Inconclusive("utils::buffer_sort_messages not found")
+    # signature ends at the first '{' that follows the where clause / return type at nesting depth 0 of () and <>
+    sig_end = s.find("\n{\n", f)
+    if sig_end < 0:
+        raise Inconclusive("buffer_sort_messages: signature end not found")
+    sig = s[f:sig_end]
+    for needle in ("inflow: Receiver<DltMessage>", "outflow: &F", "lcs_r: &evmap::ReadHandle<", "windows_size_secs: u8", "min_buffer_delay_us: u64",
+                   "Result<(), SendError<DltMessage>>", "F: Fn(DltMessage) -> SendMsgFnReturnType"):
+        if needle not in sig:
+            raise Inconclusive("buffer_sort_messages: signature changed (%s missing)" % needle)
+    i = sig_end + 1
+    j = _match_brace(s, i)
+    body = s[i:j + 1]
+    subs = [("std::collections::HashMap::<", "VerifVecMap::<"), ("std::collections::BTreeMap::<", "VerifVecMap::<"),
+            ("BinaryHeap::with_capacity(1024 * 1024)", "BinaryHeap::with_capacity(4)")]
+    done = []
+    for a, b in subs:
+        n = body.count(a)
+        if n != 1:
+            raise Inconclusive("buffer_sort_messages: expected exactly one '%s' in the body, found %d" % (a, n))
+        body = body.replace(a, b)
+        done.append("%s -> %s" % (a, b))
+    for forbidden in ("HashMap", "BTreeMap", "HashSet", "BTreeSet"):
+        if forbidden in re.sub(r"//[^\n]*", "", body):
+            raise Inconclusive("buffer_sort_messages: unexpected container %s in the body (the model substitution list is stale)" % forbidden)
+    for needed in ("lcs_r.read()", ".get_one(", "for m in inflow", "outflow("):
+        if needed not in body:
+            raise Inconclusive("buffer_sort_messages: '%s' no longer in the body" % needed)
+    fn = "\n// ---- generated: body of utils::buffer_sort_messages, verbatim except the container/parameter substitutions ----\n" \
+         "#[allow(clippy::all)]\npub fn verif_sort_messages<F: Fn(DltMessage) -> SendMsgFnReturnType>(\n" \
+         "    inflow: Vec<DltMessage>,\n    outflow: &F,\n    lcs_r: &VerifLcTable,\n    windows_size_secs: u8,\n    min_buffer_delay_us: u64,\n" \
+         ") -> Result<(), SendError<DltMessage>>\n" + body + "\n"
+    dst = os.path.join(src, "src/utils/verif_kani_sort.rs")
+    open(dst, "a").write(fn)
+    return "source-extracted function: the body of utils::buffer_sort_messages pasted verbatim as fn verif_sort_messages with the substitutions " \
+           "inflow: Receiver<DltMessage> -> Vec<DltMessage>, lcs_r: &evmap::ReadHandle -> &VerifLcTable (constant 2-entry table model), " + "; ".join(done)
